@@ -177,6 +177,48 @@ def shard_boundary(sh):
     return st.result([drv])
 
 
+def shard_defaults(sh):
+    """the fourth way a value text reaches the conversions: a list default given as text in the declaration.  A well-formed token
+    yields exactly its number; anything else stops cfg_init with the library's "Parse error in default value" abort - it is never
+    silently dropped, truncated or replaced"""
+    toks, deadline = sh
+    drv = get_driver('asan')
+    st = ShardStats('defaults given as text')
+    good = {'i': b'1', 'f': b'1.5', 'b': b'on'}
+    kname = {'i': 'int', 'f': 'float', 'b': 'bool'}
+    for tok in toks:
+        if time.time() > deadline:
+            st.complete = False
+            break
+        for k in ('i', 'f', 'b'):
+            kind, conv = KINDS[k]
+            verdict, val = conv(tok)
+            if verdict == UNSPEC:
+                st.unspec += 1
+                continue
+            sch = Schema('DT', [Opt(kname[k], 'dl', 'L', [good[k], b'"' + tok + b'"'])])
+            drv.define_schema('DT', sch.spec())
+            c = Case(['init A DT 0', 'get A %s %s 1' % (enc(b'dl'), kind), 'get A %s size 0' % enc(b'dl')], fork=True)
+            r = drv.run([c])[0]
+            st.evaluations += 1
+            st.transitions += 1
+            st.validated += 1
+            script = 'schema DT %s\n%s' % (sch.spec(), c.script())
+            text = r.text() + (r.info or '')
+            st.outcome('%s %s' % (r.status, r.first('r get ') or ''))
+            if verdict == ACCEPT:
+                st.nontriv('%s=%s' % (kind, fmt(kind, val)))
+                if r.status != 'ok' or r.first('r init') != 'r init 1':
+                    st.violation('wellformed-rejected:default/%s' % kind, script, 'cfg_init succeeds, element 1 = %s' % fmt(kind, val), text[-400:])
+                elif (r.first('r get ') or '')[6:] != fmt(kind, val):
+                    st.violation('wrong-value:default/%s' % kind, script, fmt(kind, val), r.first('r get ') or '')
+            else:
+                if 'libexit abort' not in text or 'Parse error in default value' not in text:
+                    st.violation('malformed-accepted:default/%s' % kind, script, 'cfg_init stops with "Parse error in default value" (abort)', text[-400:])
+    st.samples.append({'declaration': 'CFG_INT_LIST("dl", "{1, \\"<token>\\"}", CFGF_NONE)', 'tokens': len(toks)})
+    return st.result([drv])
+
+
 def main():
     ck = engine.Check(PID)
     if ck.replay:
@@ -188,6 +230,11 @@ def main():
     all_routes = ('setopt', 'setmulti', 'parse', 'plist', 'mlist', 'pbare', 'pappend')
     bt = boundary_tokens()
     engine.phase(ck, 'boundary values, all routes, all errno', shard_boundary, [(list(c), dl) for c in engine.chunks(bt, 8)], tokens=len(bt))
+    dt = [t for t in bt if not any(c in t for c in (b'"', b'\\', b'$', b'\0'))]
+    dt += [a + b for a in [b''] + NUM for b in NUM if b'"' not in a + b] + [a + b for a in BOOLA for b in BOOLA] + [b'true', b'false', b'yes', b'off', b'ye', b'onn']
+    dt = sorted(set(dt))
+    engine.phase(ck, 'list defaults given as text: boundary tokens and all numeral / boolean tokens <= 2 x {int, float, bool}', shard_defaults,
+                 [(list(c), dl) for c in engine.chunks(dt, 24)], tokens=len(dt))
     sh = [('tokens <= 4, int+float, 3 routes, 3 errno', NUM, 0, 0, (), ('i', 'f'), all_routes, ERRNOS, dl)]
     for a in NUM:
         sh.append(('tokens <= 4, int+float, 3 routes, 3 errno', NUM, 1, 4, (a,), ('i', 'f'), all_routes, ERRNOS, dl))
